@@ -23,7 +23,7 @@ RULE = (
     "test points (affine constraints with integer coefficients, bounds at integers, so no tolerance): "
     "configured-feasible(x) => handed-feasible(x) => feasible w.r.t. bounds, non-linear constraints and every linear row that "
     "does not touch a fixed variable (plus, per constraint row and bound, points 2^-12 inside/outside/on the bound and in the "
-    "middle of two-sided bands, incl. a band that is narrow relative to its magnitude); each dict jac == exact difference quotient of its own fun; with parallel evaluation the vectorized constraint object handed to differential_evolution returns, for a block of members, column by column the values of the single members; max_iterations reaches the "
+    "middle of two-sided bands, incl. bands that are narrow relative to their magnitude: width 2^-7 at 1000 and width 2^-11 at 2^20, i.e. below a relative 1e-9); each dict jac == exact difference quotient of its own fun; with parallel evaluation the vectorized constraint object handed to differential_evolution returns, for a block of members, column by column the values of the single members; max_iterations reaches the "
     "back-end for every options form; The same optimizer object is then started a second time from another point (other values of the fixed variables) and the lattice oracle is repeated on what is handed over then. NotImplementedError is an acceptable answer, silently handing a non-equivalent "
     "problem is not. Every accepted configuration is non-trivial; rejected ones are counted trivial."
 )
@@ -58,7 +58,8 @@ def kind_bounds(kind: str, idx: int) -> tuple[float, float]:
         "two": (-2.0, 2.0) if idx == 0 else (-1.0, 2.0 + idx),
         "free": (-np.inf, np.inf),
         # a two-sided band that is narrow relative to its magnitude is still an inequality, not an equality
-        "narrow": (1000.0 + idx, 1000.0 + idx + NARROW_WIDTH),
+        # (from the second one on at magnitude 2^20 with width 2^-11: a relative width below 1e-9, all values exact)
+        "narrow": (1000.0 + idx, 1000.0 + idx + NARROW_WIDTH) if idx == 0 else (2.0**20 + idx, 2.0**20 + idx + 2.0**-11),
     }[kind]
 
 
